@@ -58,7 +58,13 @@ func raceCase(c string) string {
 		n, _ := strconv.Atoi(f[3])
 		ms, _ := strconv.Atoi(f[4])
 		m := newMapper(f[1], size)
-		if err := m.InitFromYAMLString(raceCfgA); err != nil {
+		cfgA, cfgB := raceCfgA, raceCfgB
+		if len(f) > 5 && f[5] == "unordered" {
+			// glob_disable_ordering: the search hands its capture slice out without copying it
+			cfgA = strings.Replace(cfgA, "defaults:\n", "defaults:\n  glob_disable_ordering: true\n", 1)
+			cfgB = strings.Replace(cfgB, "defaults:\n", "defaults:\n  glob_disable_ordering: true\n", 1)
+		}
+		if err := m.InitFromYAMLString(cfgA); err != nil {
 			return "ERR " + err.Error()
 		}
 		stop := make(chan struct{})
@@ -84,8 +90,8 @@ func raceCase(c string) string {
 						bad = true
 					} else {
 						cfg := labels["cfg"]
-						if !strings.HasPrefix(mp.Name, cfg+"_") || (cfg != "A" && cfg != "B") {
-							bad = true
+						if mp.Name != cfg+"_"+strings.TrimPrefix(name, "a.") || (cfg != "A" && cfg != "B") {
+							bad = true // the name must be built from THIS lookup's capture
 						}
 						if (cfg == "A" && mp.Ttl != time.Second) || (cfg == "B" && mp.Ttl != 5*time.Second) {
 							bad = true
@@ -103,9 +109,9 @@ func raceCase(c string) string {
 		deadline := time.Now().Add(time.Duration(ms) * time.Millisecond)
 		reloads := 0
 		for time.Now().Before(deadline) {
-			cfg := raceCfgA
+			cfg := cfgA
 			if reloads%2 == 0 {
-				cfg = raceCfgB
+				cfg = cfgB
 			}
 			if err := m.InitFromYAMLString(cfg); err != nil {
 				return "ERR reload " + err.Error()
